@@ -30,6 +30,11 @@ class Step:
         self.regex: List[Tuple[str, bool, Any]] = []  # (pattern, matched, offset-form)
         self.tokens: List[Tuple[str, Any]] = []  # (type, value description)
         self.error: Optional[str] = None
+        self.start_is_pos_after: Optional[bool] = None  # the state leaves start == pos (entry invariant of the next state)
+        self.raised_exc: Any = None
+        self.next_fi: Any = None
+        self.error_av: Any = None  # the message as built (abstract value) and the path context, for C20's one-line rule
+        self.ctx: Any = None
         self.next_state: Optional[str] = None
         self.raised: Optional[str] = None
         self.consumed: Any = None
@@ -75,9 +80,16 @@ def lexer_iteration(model: Model, state: str, filter_depth: int = 0, in_function
         ctx = run.ctx
         if run.kind == "raise":
             s.raised = run.exc_name()
+            s.raised_exc, s.ctx = run.value, ctx
             out.append(s)
             continue
         r, lx, p, q, it = run.value
+        st_, ps_ = lx.attrs.get("start"), lx.attrs.get("pos")
+        if isinstance(st_, IntV) and isinstance(ps_, IntV):
+            d_ = st_.lin - ps_.lin
+            s.start_is_pos_after = d_.is_const() and d_.const == 0
+        elif isinstance(st_, Const) and isinstance(ps_, Const):
+            s.start_is_pos_after = st_.value == ps_.value
         # characters fixed relative to pos
         fixed: Dict[int, str] = {}
         for (sid, lkey), ch in it.host.chars.items():
@@ -122,9 +134,11 @@ def lexer_iteration(model: Model, state: str, filter_depth: int = 0, in_function
             if name == "ERROR":
                 m = t.attrs.get("message")
                 s.error = m.value if isinstance(m, Const) else describe(m)
+                s.error_av, s.ctx = m, ctx
             else:
                 s.tokens.append((name, describe(t.attrs.get("value"))))
         if isinstance(r, FuncV):
+            s.next_fi = r.fi
             s.next_state = r.fi.name
             # closures produced by the string factory are named by their module-level alias
             for alias, expr in lexmod.assigns.items():
